@@ -94,13 +94,25 @@ fn parse_string<L: LexAlloc>(lexer: &mut L, bytes: bool) -> Result<Vec<u8>, hifi
 }
 
 fn parse_num<L: LexAlloc>(lexer: &mut L) -> Result<Num, hifijson::Error> {
-    let num = hifijson::num::Num::signed_digits();
+    // lex a leading `-` ourselves, because after it (unlike after `+`),
+    // hifijson ends the number after a leading zero, reading `-042` as `-0` and `42`
+    let neg = lexer.peek_next() == Some(b'-');
+    if neg {
+        lexer.take_next();
+    }
+    let num = if neg {
+        hifijson::num::Num::unsigned_digits()
+    } else {
+        hifijson::num::Num::signed_digits()
+    };
     let (num, parts) = lexer.num_string_with(num).unvalidated();
     let num = num.as_ref();
     Ok(match num {
         "+" if lexer.strip_prefix(b"Infinity") => Num::Float(f64::INFINITY),
-        "-" if lexer.strip_prefix(b"Infinity") => Num::Float(f64::NEG_INFINITY),
+        "" if neg && lexer.strip_prefix(b"Infinity") => Num::Float(f64::NEG_INFINITY),
         _ if num.ends_with(|c: char| c.is_ascii_digit()) => {
+            let neg_num = neg.then(|| alloc::format!("-{num}"));
+            let num = neg_num.as_deref().unwrap_or(num);
             if parts.is_int() {
                 Num::from_str_radix(num, 10).unwrap()
             } else {
